@@ -39,6 +39,9 @@ for f in sorted(glob.glob("/tmp/campaign/*.json")):
         "signatures": {p: r.get("signatures") for p, r in rec.get("checks", {}).items() if isinstance(r, dict) and r.get("exit") == 1},
         "harness_errors": rec.get("harness_errors"),
     }
+    if rec.get("first_pass_caught_by") is not None and sorted(rec["first_pass_caught_by"]) != sorted(rec.get("caught_by") or []):
+        meta["first_pass_caught_by"] = rec["first_pass_caught_by"]
+        meta["note"] = "caught_by is the state after the checks were strengthened following the first pass (DESIGN.md 8.3)"
     json.dump(meta, open(f"{d}/meta.json", "w"), indent=1)
     rows.append((name, "confirmed", rec.get("caught_by")))
 for r in rows:
